@@ -59,6 +59,9 @@ def corpus():
                [(str(x), 'format!("{:?}", M::f16(%du32))' % x) for x in (2, 50)]))
     c.append(F("f17", "#[TRACE]\npub fn f17(x: u32) -> u32 { HERE x + 17 }", [("4", 'format!("{:?}", M::f17(4))')], attr='name = "custom name é"', lit="custom name é"))
     c.append(F("fb", "#[TRACE]\npub fn fb(x: u32) -> u32 { HERE x + 19 }", [("4", 'format!("{:?}", M::fb(4))')], attr='name = "GET /u/{x} {{y}}"', lit="GET /u/{x} {{y}}"))
+    # a function whose own name is `f`: the default name is still its full path (given here as a literal,
+    # not through func_path!(), which a change to the path macros would shift along with the recorded name)
+    c.append(F("f", "#[TRACE]\npub fn f(x: u32) -> u32 { HERE x + 5 }", [("4", 'format!("{:?}", M::f(4))')], lit="twins::gen::traced::f"))
     c.append(F("f18", "#[TRACE]\npub fn f18(x: u32) -> u32 { HERE x + 18 }", [("4", 'format!("{:?}", M::f18(4))')], attr="short_name = true", lit="f18"))
     c.append(F("f19", "#[TRACE]\npub fn f19(x: u32, s: &str) -> usize { HERE rt::log(\"f19\"); s.len() + x as usize }",
                [("3,'hé'", 'format!("{:?}", M::f19(x, s))'), ("0,''", 'format!("{:?}", M::f19(x, s))')],
